@@ -339,10 +339,13 @@ func cmdCheck(args []string) {
 		Solver string `json:"back_end"`
 		Ms     int64  `json:"ms"`
 		Bytes  int    `json:"smt_bytes"`
+		Bound  string `json:"bounded,omitempty"`
 	}
 	var oblOuts []oblOut
 	nObl, nDis, nCover, nCoverOK, nKnown := 0, 0, 0, 0, 0
 	nCanary := 0
+	nBounded := 0
+	boundedNotes := map[string]bool{}
 	var solverMs int64
 	knownPrinted := map[string]bool{}
 	var knownLines []string
@@ -350,7 +353,14 @@ func cmdCheck(args []string) {
 	for _, r := range res {
 		o := r.O
 		solverMs += r.Ms
-		oo := oblOut{shortName(o.Name), o.Kind, o.Text, strings.TrimPrefix(o.Pos, repoRoot+"/"), r.Status, r.Solver, r.Ms, len(r.Query)}
+		oo := oblOut{shortName(o.Name), o.Kind, o.Text, strings.TrimPrefix(o.Pos, repoRoot+"/"), r.Status, r.Solver, r.Ms, len(r.Query), ""}
+		if fcb := oblFC[o]; fcb != nil && fcb.BoundedNote != "" {
+			oo.Bound = fcb.BoundedNote
+			if r.Status == "discharged" && !o.Canary && o.Kind != "cover" {
+				nBounded++
+				boundedNotes[shortName(fcb.Pkg+"."+fcb.Name)+": "+fcb.BoundedNote] = true
+			}
+		}
 		isKnown := false
 		for _, kf := range known.Findings {
 			if kf.Property == id && kf.Obligation == shortName(baseName(o.Name)) {
@@ -448,6 +458,7 @@ func cmdCheck(args []string) {
 	cov := map[string]interface{}{
 		"obligations":              nObl,
 		"discharged":               nDis,
+		"discharged_bounded":       map[string]interface{}{"count": nBounded, "meaning": "discharged obligations of functions whose contract is labelled bounded: they hold within the stated bound only and are NOT counted as proved", "bounds": sortedKeys(boundedNotes)},
 		"checker_cmd":              fmt.Sprintf("/verif/bin/owvc check %s --tier %s", id, *tier),
 		"trusted_base":             trustedBase,
 		"functions_under_contract": funcs,
